@@ -763,7 +763,14 @@ func (fr *frame) execInstr(ins ssa.Instruction, st *State, env map[ssa.Value]Val
 			env[x] = vc.havocVal(x.Type(), x.Name(), st.alloc)
 		}
 	case *ssa.ChangeType:
-		env[x] = op(x.X)
+		if reg.sortOf(x.X.Type()) != reg.sortOf(x.Type()) {
+			// e.g. sdk.AccAddress (abstract sort) <-> []byte: the value changes representation in the model;
+			// the result is left unconstrained (sound: nothing is assumed about it)
+			vc.note("representation change %s -> %s at %s: result unconstrained", x.X.Type(), x.Type(), vc.pos(x.Pos()))
+			env[x] = vc.havocVal(x.Type(), x.Name(), st.alloc)
+		} else {
+			env[x] = op(x.X)
+		}
 	case *ssa.ChangeInterface:
 		env[x] = op(x.X)
 	case *ssa.Convert:
